@@ -111,6 +111,7 @@ pub proof fn lemma_hdr_bounds(s: Seq<u8>, n: int)
     decreases n,
 { if n > 0 { lemma_hdr_bounds(s, n - 1); } }
 //@@ fn file=fe2o3-amqp/src/link/receiver_link.rs name=count_number_of_sections_and_offset
+//@@ shape loops=for;stmt-1=( section_numbers
 //@@ generics
 //@@ nowhere
 //@@ param bytes : &Payload
